@@ -49,7 +49,7 @@ def resChar : Except Err Unit → Char
   | .ok _ => 'A'
   | .error .wrongLen => 'L' | .error .tooBig => 'B' | .error .notAscending => 'N'
   | .error .notBalanced => 'U' | .error .noMatch => 'X' | .error .branch => 'R'
-  | .error .deadEnd => 'D' | .error .tooShort => 'S' | .error .hang => 'H'
+  | .error .deadEnd => 'D' | .error .tooShort => 'S' | .error .noClose => 'C' | .error .hang => 'H'
 
 /-- endpoint table for nonces `0 … n-1` -/
 def epTable (ep : Nat → Nat × Nat) (n : Nat) : Array (Nat × Nat) :=
